@@ -15,11 +15,11 @@ EXPLANATION = (
     "`p/..`, `./p`) x traversal depth 0..2, the pivot computed by join_and_get_depth makes the root segment the directory "
     "given to the walk (empty for a rooted glob), the relative segment the prefix as written plus the traversed names (the "
     "whole path for a rooted glob), and depth() = traversal depth + pivot equal to the number of components of the relative "
-    "segment; (same) GlobEntry::root_relative_paths, GlobEntry::depth and the walker's candidate computation use the same "
-    "helper with (entry path, walkdir depth, the pivot stored in the entry) and the same sum; TreeEntry::root_relative_paths "
-    "splits at its own depth; (matched) to_candidate_path returns the complete matched text, which is the relative segment "
+    "segment - GlobEntry's own root_relative_paths and depth are evaluated on an entry built from (path, traversal depth, "
+    "pivot), so the rule does not depend on which helpers they use; (tree) the same for TreeEntry (walks without a glob); "
+    "(matched) to_candidate_path returns the complete matched text, which is the relative segment "
     "the complete program was matched on (C02.gate).")
-RULES = "C14.join (PROV), C14.pivot (TABLE), C14.same (SIBLING), C14.matched (= C02.gate)"
+RULES = "C14.join (PROV), C14.pivot (TABLE), C14.tree (TABLE), C14.matched (PROV, with C02.gate)"
 
 
 def run(ctx):
@@ -67,44 +67,36 @@ def rule_join(F, R):
 
 
 def rule_same(F, R):
-    seen = []
-    stubs = {"walk::glob::root_relative_paths": lambda I, a, fn, e: (seen.append(tuple(c13._n(x) for x in a)), Tup([Sym("root"), Sym("relative")]))[1],
-             "<walk::TreeEntry as walk::Entry>::path": lambda I, a, fn, e: Sym("path(%s)" % c13._n(a[0])),
-             "<walk::TreeEntry as walk::Entry>::depth": lambda I, a, fn, e: Sym("depth(%s)" % c13._n(a[0])),
-             "<walk::glob::GlobEntry as walk::Entry>::path": lambda I, a, fn, e: Sym("path(entry)"),
-             "walkdir::DirEntry::depth": lambda I, a, fn, e: Sym("wdepth(%s)" % c13._n(a[0])),
-             "walkdir::DirEntry::path": lambda I, a, fn, e: Sym("wpath(%s)" % c13._n(a[0]))}
+    """TreeEntry (PathExt::walk, no glob): the root segment is the walked directory, the relative segment the traversed
+    names, the depth their number - by evaluating TreeEntry's own accessors on abstract entries."""
+    rrp = F.find("<walk::TreeEntry as walk::Entry>::root_relative_paths")
+    dep = F.find("<walk::TreeEntry as walk::Entry>::depth")
+    stubs = PM.stubs()
+    stubs["walkdir::DirEntry::path"] = lambda I, a, fn, e: strip(a[0]).fields["path"]
+    stubs["walkdir::DirEntry::depth"] = lambda I, a, fn, e: strip(a[0]).fields["depth"]
+    n = 0
+    for bname, b in BASES.items():
+        if b == ("", ()):
+            continue
+        base = PM.P(*b)
+        for d in range(0, 4):
+            below = tuple("e%d" % i for i in range(1, d + 1))
+            path = PM.P(b[0], b[1] + below)
+            entry = tree_entry(Adt("walkdir-model", "DirEntry", {"path": path, "depth": d}))
+            I = Interp(F, stubs)
+            r = strip(tabulate.single(I.explore(lambda: I.call_item(rrp, [Ref(Place(Cell(entry)))]))))
+            I2 = Interp(F, stubs)
+            got_d = strip(tabulate.single(I2.explore(lambda: I2.call_item(dep, [Ref(Place(Cell(entry)))]))))
+            n += 1
+            inst = "base=%s/traversal-depth=%d" % (bname, d)
+            good = (isinstance(r, Tup) and PM.is_path(r.items[0]) and PM.is_path(r.items[1]) and PM.same(r.items[0], base)
+                    and PM.same(r.items[1], PM.P("", below)) and got_d == d)
+            R.check(good, "C14.tree", inst, "segments (%s, %s), depth %d" % (PM.show(base), PM.show(PM.P("", below)), d), rrp.where(),
+                    fail_msg="entry %s of a walk of %s: root_relative_paths = %s, depth = %r; expected (%s, %s) and %d" % (
+                        PM.show(path), PM.show(base), "(%s, %s)" % (PM.show(r.items[0]), PM.show(r.items[1])) if isinstance(r, Tup) else repr(r),
+                        got_d, PM.show(base), PM.show(PM.P("", below)), d))
+    R.floor("C14.tree", "base x depth cells", n, 28)
     ge = Adt("walk::glob::GlobEntry", "GlobEntry", {"entry": Sym("entry"), "pivot": Sym("pivot"), "matched": Sym("matched")})
-    it = F.find("<walk::glob::GlobEntry as walk::Entry>::root_relative_paths")
-    I = Interp(F, stubs)
-    I.explore(lambda: I.call_item(it, [Ref(Place(Cell(ge)))]))
-    R.check(seen == [("path(entry)", "depth(entry)", "pivot")], "C14.same", "GlobEntry::root_relative_paths",
-            "helper called with (own path, walkdir depth of the entry, stored pivot)", it.where(),
-            fail_msg="GlobEntry::root_relative_paths calls the helper with %s" % seen)
-    # the helper splits at depth + pivot; GlobEntry::depth is the same sum
-    helper = F.find("walk::glob::root_relative_paths")
-    calls = []
-    I2 = Interp(F, {"<std::path::Path as walk::SplitAtDepth>::split_at_depth": lambda I3, a, fn, e: (calls.append((c13._n(a[0]), strip(a[1]))), Tup([Sym("r"), Sym("s")]))[1]})
-    for d, p in itertools.product((0, 1, 3), (0, 2)):
-        del calls[:]
-        I2.explore(lambda: I2.call_item(helper, [Sym("path"), d, p]))
-        R.check(calls == [("path", d + p)], "C14.same", "root_relative_paths(depth=%d,pivot=%d)" % (d, p), "splits the path at depth + pivot", helper.where(),
-                fail_msg="root_relative_paths(path, %d, %d) splits at %s" % (d, p, calls))
-    dep = F.find("<walk::glob::GlobEntry as walk::Entry>::depth")
-    for d, p in itertools.product((0, 1, 3), (0, 2)):
-        I3 = Interp(F, {"<walk::TreeEntry as walk::Entry>::depth": lambda I4, a, fn, e: d})
-        g = Adt("walk::glob::GlobEntry", "GlobEntry", {"entry": Sym("entry"), "pivot": p, "matched": Sym("matched")})
-        res = strip(tabulate.single(I3.explore(lambda: I3.call_item(dep, [Ref(Place(Cell(g)))]))))
-        R.check(res == d + p, "C14.same", "GlobEntry::depth(depth=%d,pivot=%d)" % (d, p), "walkdir depth + pivot = %d (the split depth)" % (d + p), dep.where(),
-                fail_msg="GlobEntry::depth with walkdir depth %d and pivot %d is %r, but the relative segment is split at %d" % (d, p, res, d + p))
-    te = F.find("<walk::TreeEntry as walk::Entry>::root_relative_paths")
-    calls2 = []
-    I5 = Interp(F, dict(stubs, **{"<std::path::Path as walk::SplitAtDepth>::split_at_depth": lambda I6, a, fn, e: (calls2.append((c13._n(a[0]), c13._n(a[1]))), Tup([Sym("r"), Sym("s")]))[1]}))
-    t = Adt("walk::TreeEntry", "TreeEntry", {"entry": Sym("dirent")})
-    I5.explore(lambda: I5.call_item(te, [Ref(Place(Cell(t)))]))
-    good = len(calls2) == 1 and calls2[0][0].startswith("path(") and calls2[0][1].startswith("depth(")
-    R.check(good, "C14.same", "TreeEntry::root_relative_paths", "splits its own path at its own depth", te.where(),
-            fail_msg="TreeEntry::root_relative_paths splits %s" % calls2)
     tc = F.find("walk::glob::GlobEntry::to_candidate_path")
     I7 = Interp(F, {"capture::MatchedText::to_candidate_path": lambda I8, a, fn, e: Sym("candidate(%s)" % c13._n(a[0]))})
     res = strip(tabulate.single(I7.explore(lambda: I7.call_item(tc, [Ref(Place(Cell(ge)))]))))
@@ -136,8 +128,12 @@ def pivot_cells(F):
     -> list of (instance, cell description, problems: [(aspect, signature, text)], detail, where)"""
     jit = F.find("<std::path::Path as walk::JoinAndGetDepth>::join_and_get_depth")
     sit = F.find("<std::path::Path as walk::SplitAtDepth>::split_at_depth")
+    rrp = F.find("<walk::glob::GlobEntry as walk::Entry>::root_relative_paths")
+    dep = F.find("<walk::glob::GlobEntry as walk::Entry>::depth")
     stubs = PM.stubs()
     stubs["std::convert::AsRef::as_ref"] = lambda I, a, fn, e: strip(a[0])
+    stubs["walkdir::DirEntry::path"] = lambda I, a, fn, e: strip(a[0]).fields["path"]
+    stubs["walkdir::DirEntry::depth"] = lambda I, a, fn, e: strip(a[0]).fields["depth"]
     out = []
     for (bname, b), (pname, p) in itertools.product(BASES.items(), PREFIXES.items()):
         base = PM.P(*b)
@@ -158,13 +154,21 @@ def pivot_cells(F):
             inst = "base=%s/prefix=%s/traversal-depth=%d" % (bname, pname, d)
             below = tuple("e%d" % i for i in range(1, d + 1))
             path = PM.P(PM.lead(root), PM.comps(root) + below)
+            # the entry as the walker builds it: GlobEntry{entry: TreeEntry{entry: walkdir entry (path, depth)}, pivot, matched};
+            # its own accessors are evaluated, so the rule does not depend on which helpers they use
+            entry = glob_entry(F, path, d, pivot)
             I2 = Interp(F, stubs)
-            res = tabulate.single(I2.explore(lambda: I2.call_item(sit, [Ref(Place(Cell(path))), d + pivot])))
+            res = tabulate.single(I2.explore(lambda: I2.call_item(rrp, [Ref(Place(Cell(entry)))])))
             r = strip(res)
             if not (isinstance(r, Tup) and PM.is_path(r.items[0]) and PM.is_path(r.items[1])):
-                out.append((inst, "", [("eval", "unanalysable", "split_at_depth panics / is unanalysable: %r" % (res,))], "", sit.where()))
+                out.append((inst, "", [("eval", "unanalysable", "GlobEntry::root_relative_paths panics / is unanalysable: %r" % (res,))], "", rrp.where()))
                 continue
             rootseg, rel = strip(r.items[0]), strip(r.items[1])
+            I3 = Interp(F, stubs)
+            reported = strip(tabulate.single(I3.explore(lambda: I3.call_item(dep, [Ref(Place(Cell(entry)))]))))
+            if not isinstance(reported, int):
+                out.append((inst, "", [("eval", "unanalysable", "GlobEntry::depth panics / is unanalysable: %r" % (reported,))], "", dep.where()))
+                continue
             want_root = PM.P("", ()) if rooted else base
             # the relative segment is the text the glob is matched on: the prefix as written, then the traversed names
             want_rel = path if rooted else PM.P(p[0] if p else "", (p[1] if p else ()) + below)
@@ -179,13 +183,27 @@ def pivot_cells(F):
                     p and p[0] == "." and PM.same(rel, PM.P("", PM.comps(want_rel)))) else "relative segment differs"
                 problems.append(("relative", sig, "the relative segment is %s, expected %s (the prefix as written in the glob, then the traversed "
                                  "names): the complete program is matched on this text" % (PM.show(rel), PM.show(want_rel))))
-            if d + pivot != PM.n_components(rel):
-                problems.append(("depth", "depth differs from the component count by %+d" % (d + pivot - PM.n_components(rel)),
-                                 "depth() = traversal depth %d + pivot %d = %d, but the relative segment %s has %d component(s)" % (
-                                     d, pivot, d + pivot, PM.show(rel), PM.n_components(rel))))
+            if reported != PM.n_components(rel):
+                problems.append(("depth", "depth differs from the component count by %+d" % (reported - PM.n_components(rel)),
+                                 "depth() = %d (traversal depth %d, pivot %d), but the relative segment %s has %d component(s)" % (
+                                     reported, d, pivot, PM.show(rel), PM.n_components(rel))))
             out.append((inst, "entry %s of a walk rooted at %s" % (PM.show(path), PM.show(root)), problems,
-                        "segments (%s, %s), depth %d" % (PM.show(rootseg), PM.show(rel), d + pivot), jit.where()))
+                        "segments (%s, %s), depth %d" % (PM.show(rootseg), PM.show(rel), reported), jit.where()))
     return out
+
+
+def glob_entry(F, path, depth, pivot):
+    for adt, fields in (("walk::glob::GlobEntry", ["entry", "pivot", "matched"]), ("walk::TreeEntry", ["entry"])):
+        have = [f["name"] for f in F.adt(adt)["variants"][0]["fields"]]
+        if have != fields:
+            from ..facts import AnchorMissing
+            raise AnchorMissing("%s with the fields %s (has %s)" % (adt, fields, have))
+    dirent = Adt("walkdir-model", "DirEntry", {"path": path, "depth": depth})
+    return Adt("walk::glob::GlobEntry", "GlobEntry", {"entry": tree_entry(dirent), "pivot": pivot, "matched": Sym("matched")})
+
+
+def tree_entry(dirent):
+    return Adt("walk::TreeEntry", "TreeEntry", {"entry": dirent})
 
 
 def report_cells(F, R, rule, aspects, floor):
